@@ -146,9 +146,15 @@ class FakeOS(object):
 
 
 # --------------------------------------------------------------------------- oracle
-def oracle(fx, wcomp, threshold, final):
+def oracle(fx, wcomp, threshold, final, faulted=None):
     bad = []
     n = len(fx.out)
+    if faulted is False:
+        # the transport never failed or ended: would-block / timeout conditions and fragmentation must not end the stream
+        for who, err in (("writer", fx.werr), ("reader", fx.rerr)):
+            if err is not None:
+                bad.append(("spurious-failure", "%s failed with %s: %s although the transport neither failed nor ended (only "
+                            "fragmentation and transient would-block / timeout conditions)" % (who, type(err).__name__, err)))
     for i, got in enumerate(fx.out):
         if got != fx.payloads[i]:
             bad.append(("altered", "packet %d was received altered: %d bytes sent, %d bytes received%s" % (
@@ -230,12 +236,14 @@ def replay_graph(chk, lens, wcomp, transport, max_paths, rnd, kind="text"):
         try:
             cur = path[0]
             ok = True
+            faulted = False
             for i, (label, dst) in enumerate(path[1:]):
                 s0, s1 = g.nodes[cur], g.nodes[dst]
                 if s0 == s1:
                     cur = dst
                     continue
                 name = label.split("(")[0]
+                faulted = faulted or name in ("WFail", "RFail")
                 try:
                     if name == "WSend":
                         k = int(label.split("(")[1].rstrip(")"))
@@ -264,7 +272,7 @@ def replay_graph(chk, lens, wcomp, transport, max_paths, rnd, kind="text"):
                 else:
                     covered += 1
                     chk.distinct(("edge", transport, tuple(lens), wcomp, cur, label, dst))
-                for key, msg in oracle(fx, wcomp, TH, False):
+                for key, msg in oracle(fx, wcomp, TH, False, faulted=faulted):
                     chk.violation(key, "C05 %s [payload lengths %s, %s, decisions %s]" % (msg, lens, transport, labels[:i + 1]),
                                   {"mode": "decisions", "lens": lens, "kind": kind, "wcomp": wcomp, "transport": transport,
                                    "labels": labels[:i + 1]})
@@ -273,7 +281,7 @@ def replay_graph(chk, lens, wcomp, transport, max_paths, rnd, kind="text"):
                 chk.validated()
             # finish the run without further faults and judge the whole of it
             finish(fx)
-            for key, msg in oracle(fx, wcomp, TH, True):
+            for key, msg in oracle(fx, wcomp, TH, True, faulted=faulted):
                 chk.violation(key, "C05 %s [payload lengths %s, %s, decisions %s then no more faults]" % (
                     msg, lens, transport, labels), {"mode": "decisions", "lens": lens, "kind": kind, "wcomp": wcomp,
                                                     "transport": transport, "labels": labels})
@@ -388,7 +396,7 @@ def random_run(chk, rnd, sizes, wcomp, rcomp, transport, fault_p):
                     dead = str(ex2)
             else:
                 dead = str(ex)
-        bad = oracle(fx, wcomp, 3000, state["fault"] is None)
+        bad = oracle(fx, wcomp, 3000, state["fault"] is None, faulted=state["fault"] is not None)
         if dead:
             bad.append(("deadlock", "transfer blocked for ever: " + dead))
         events = list(fx.net.iolog)
